@@ -528,9 +528,13 @@ func (p *Packer) Unpack(r io.Reader, dst string) (err error) {
 		if info.IsDirectory() {
 			// A directory entry replaces a symlink extracted earlier under
 			// the same name; its mode and times must not be applied to
-			// whatever that link points at.
-			if err := removeSymlink(info.Path); err != nil {
-				return err
+			// whatever that link points at. The destination itself is not
+			// an extracted entry: if the caller reaches it through a
+			// symlink, that link stays.
+			if info.Path != filepath.Clean(dst) {
+				if err := removeSymlink(info.Path); err != nil {
+					return err
+				}
 			}
 
 			// Create the directory itself: it may be empty, in which case
@@ -552,8 +556,10 @@ func (p *Packer) Unpack(r io.Reader, dst string) (err error) {
 
 		// A file entry replaces a symlink extracted earlier under the same
 		// name rather than being written through it.
-		if err := removeSymlink(info.Path); err != nil {
-			return err
+		if info.Path != filepath.Clean(dst) {
+			if err := removeSymlink(info.Path); err != nil {
+				return err
+			}
 		}
 
 		// Open a handle to the destination.
